@@ -17,6 +17,38 @@ PENDING = 'check not built yet in this session; see DESIGN.md section 5 for the 
 NOT_APPLICABLE = {('C%02d' % i): PENDING for i in range(1, 21)}
 
 CHECKS = {
+    'C20': {
+        'engine': 'obligations + const/dtype absint',
+        'technique': 'AST patterns over candidate-mask / permutation-prefix construction, constant propagation through the ring-lattice band counter, dtype-kind abstract interpretation of index arrays, symbolic cell/edge-table interpretation of the stub-matching repair block',
+        'text': 'For every (N, K) and every draw: candidate cells exclude the diagonal; the cells set are the first K entries of a permutation of all candidates '
+                '(distinct => exactly K); makerandCIJ_und mirrors an upper-triangular fill once; rejection loops leave only through the exact-count test; '
+                'the reported fractal count is np.sum of the returned matrix; ring-lattice offsets start at 1 / n-1, one band per iteration, coinciding '
+                'bands clipped, excess removed from distinct cells of the last band; stub tables are integer and built from the degree vectors; the repair '
+                'step leaves matrix and edge table coherent whether the partner edge was already placed or not.',
+        'note': 'Feasibility/termination of stub matching and rejection sampling, and uniformity, are not decided. Power-of-two preconditions of the '
+                'hierarchical generators are not checked.',
+    },
+    'C09': {
+        'engine': 'valnum + obligations',
+        'technique': 'inf-taint analysis, dtype-kind abstract interpretation, guard dominance, value numbering + sympy normal form against the published definitions',
+        'text': 'For the nine clustering/transitivity routines: arrays that receive np.inf via a mask store may only be used as element-wise divisors of the '
+                'returned per-node quotient and never reach a reduction; the mask is keyed on "triangle count == 0" and precedes the division in every '
+                'per-node routine and is absent from every transitivity routine; the masked array is float-kinded on every path; clustering_coef_bu '
+                'divides only under k >= 2; the value-numbered result terms equal the Watts-Strogatz / Fagiolo / Onnela definitions after inlining, '
+                'matrix-product flattening and algebraic normalisation; cuberoot is sign-preserving.',
+        'note': 'Equality with an explicit enumeration of node triples on numbers and the [0,1] range are not decided. The formula comparison recognises '
+                're-association, temporaries, @ vs np.dot and dtype casts; a genuinely different but equivalent algorithm would be reported and needs the '
+                'reference table extended. The zhang/costantini branches of clustering_coef_wu_sign are covered by the taint/mask/dtype rules only.',
+    },
+    'C16': {
+        'engine': 'obligations',
+        'technique': 'conservation obligations on the union-merge loop (CFG dominance, exhaustive if/else over every existing set, no early exit), def-use of labels/sizes, who-may-call',
+        'text': 'get_components: asymmetric input raises before any work; binarised copy with full diagonal seeds every node; the edge list covers every nonzero '
+                'cell; in each pass every existing set is merged (iff it shares a node) or carried, no early exit, item appended once after the pass, carried '
+                'list replaces the sets; labels = position+1 and sizes = lengths of that same list; number_of_components = number of sizes; consumers resolve '
+                'to these routines. With these premises the sets are the connected components for every graph and edge order (induction over edges).',
+        'note': 'The induction itself is a cited argument, not mechanised. Agreement with distance_bin/breadthdist/reachdist is not decided (different algorithms).',
+    },
     'C02': {
         'engine': 'labels + obligations',
         'technique': 'label typestate dataflow (RAW/CANON/CANON+1/GAPPY) over the CFG; must-pass-through of q recomputation after label writes; AST templates for the modularity formulas incl. gamma factor of every null term; level-loop rebinding',
